@@ -57,13 +57,6 @@ func explore(args []string) int {
 		fmt.Fprintln(os.Stderr, "world:", err)
 		return 2
 	}
-	var ps [][]Action
-	if *paths != "" {
-		if ps, err = ParsePaths(*paths); err != nil {
-			fmt.Fprintln(os.Stderr, err)
-			return 2
-		}
-	}
 	var al []Action
 	if *alpha != "" {
 		b, err := ioutil.ReadFile(*alpha)
@@ -80,7 +73,7 @@ func explore(args []string) int {
 		fmt.Fprintln(os.Stderr, err)
 		return 2
 	}
-	e, err := Explore(w, wr, Options{Paths: ps, Alphabet: al, Nodes: *nodes, Seed: *seed, Shard: *shard, Shards: *shards,
+	e, err := Explore(w, wr, Options{PathFile: *paths, Alphabet: al, Nodes: *nodes, Seed: *seed, Shard: *shard, Shards: *shards,
 		Reps: *reps, RepsAudit: *repsAudit, MaxHeight: *maxHeight, AllPaths: *allPaths})
 	if cerr := wr.Close(); err == nil {
 		err = cerr
@@ -93,7 +86,7 @@ func explore(args []string) int {
 	for k := range e.Pairs {
 		classes = append(classes, k)
 	}
-	sum, _ := json.Marshal(map[string]interface{}{"steps": e.Steps, "paths": len(ps), "alphabet": len(al), "classes": classes,
+	sum, _ := json.Marshal(map[string]interface{}{"steps": e.Steps, "paths": e.NPaths, "alphabet": len(al), "classes": classes,
 		"wall_s": time.Since(t0).Seconds()})
 	fmt.Println(string(sum))
 	return 0
